@@ -30,3 +30,137 @@ theorem builder_nil_forms_agree (cfg : Cfg) (fn : FnRow) (x : α) (a b c : ArgFo
   cases a <;> cases b <;> cases c <;> exact ⟨rfl, rfl⟩
 
 end Spine.Cmd
+
+namespace Spine.Cmd
+open Spine.Generated
+variable {α : Type}
+
+/-! ## every way of calling the three builders
+
+`ReadCmdType(partialSelector, elements)`, `ReplyCmdType(partial)` and
+`NotifyOrWriteCmdType(deleteSelector, partialSelector, partialWithoutSelector, deleteElements)` can be
+called with each selectors / elements argument present or absent: 4 + 2 + 16 = 22 presence patterns.
+`Call` enumerates them, `buildCall` is the builder call itself, and `buildCall_eq_shape` shows that each
+is the build of one of the 15 shapes of `Shape.all` — so the shape theorems speak about every call. -/
+
+inductive Call
+  | read (sel el : Bool)
+  | reply (part : Bool)
+  | now (delSel partSel pws delEl : Bool)     -- NotifyOrWriteCmdType
+deriving Repr, DecidableEq
+
+def bools : List Bool := [false, true]
+def Call.all : List Call :=
+  (bools.flatMap fun s => bools.map fun e => Call.read s e) ++ bools.map Call.reply ++
+  (bools.flatMap fun a => bools.flatMap fun b => bools.flatMap fun c => bools.map fun d => Call.now a b c d)
+
+/-- the shape a call is an instance of; with `partialWithoutSelector` the builder returns before it looks
+    at the other arguments (function_data_cmd.go, early return) -/
+def Call.shape : Call → Shape
+  | .read false false => .read
+  | .read true false => .readSel
+  | .read false true => .readEl
+  | .read true true => .readSelEl
+  | .reply false => .reply
+  | .reply true => .replyPartial
+  | .now _ _ true _ => .part
+  | .now false false false false => .full
+  | .now false true false false => .partSel
+  | .now true false false false => .delSel
+  | .now false false false true => .delEl
+  | .now true true false false => .delSelPartSel
+  | .now false true false true => .partSelDelEl
+  | .now true false false true => .delSelDelEl
+  | .now true true false true => .delSelPartSelDelEl
+
+/-- an argument is ignored by the call: only with `partialWithoutSelector` -/
+def Call.ignoresArgs : Call → Bool
+  | .now d p true e => d || p || e
+  | _ => false
+
+def optIf (b : Bool) (x : Option (Typed α)) : Option (Typed α) := if b then x else none
+
+/-- the builder call itself: each selectors / elements argument given (`true`) or nil. The partial
+    selector is `a.sel2` when a delete selector (`a.sel`) is given as well, `a.sel` otherwise — the
+    naming of `Args`. -/
+def buildCall (cfg : Cfg) (fn : FnRow) (c : Call) (a : Args α) : Except Panic (Cmd α) :=
+  let sel : Option (Typed α) := (selTy? fn).map (⟨·, a.sel⟩)
+  let sel2 : Option (Typed α) := (selTy? fn).map (⟨·, a.sel2⟩)
+  let el : Option (Typed α) := (elTy? fn).map (⟨·, a.el⟩)
+  match c with
+  | .read s e => readCmd cfg fn a.empty (optIf s sel) (optIf e el)
+  | .reply p => replyCmd fn a.data p
+  | .now d p pws e =>
+    notifyOrWriteCmd cfg fn a.data (optIf d sel) (optIf p (if d then sel2 else sel)) pws (optIf e el)
+
+/-- `NotifyOrWriteCmdType` with `partialWithoutSelector` ignores its selectors and elements. -/
+theorem notifyOrWriteCmd_pws (cfg : Cfg) (fn : FnRow) (data : α) (d p e : Option (Typed α)) :
+    notifyOrWriteCmd cfg fn data d p true e = notifyOrWriteCmd cfg fn data none none true none := by
+  unfold notifyOrWriteCmd
+  cases createCmd fn.key ⟨fn.payloadKey, data⟩ <;> rfl
+
+/-- Every call of the three builders builds what its shape builds. -/
+theorem buildCall_eq_shape (cfg : Cfg) (fn : FnRow) (c : Call) (a : Args α) :
+    buildCall cfg fn c a = build cfg fn c.shape a := by
+  cases c with
+  | read s e => cases s <;> cases e <;> rfl
+  | reply p => cases p <;> rfl
+  | now d p pws e =>
+    cases pws with
+    | true =>
+      simp only [buildCall, Call.shape, build]
+      exact notifyOrWriteCmd_pws ..
+    | false => cases d <;> cases p <;> cases e <;> rfl
+
+theorem Call.shape_mem_all (c : Call) : c.shape ∈ Shape.all := by
+  cases c with
+  | read s e => cases s <;> cases e <;> decide
+  | reply p => cases p <;> decide
+  | now d p pws e => cases d <;> cases p <;> cases pws <;> cases e <;> decide
+
+theorem Call.mem_all (c : Call) : c ∈ Call.all := by
+  cases c with
+  | read s e => cases s <;> cases e <;> decide
+  | reply p => cases p <;> decide
+  | now d p pws e => cases d <;> cases p <;> cases pws <;> cases e <;> decide
+
+/-- every shape is reached by a call that ignores nothing -/
+theorem Shape.all_reached : ∀ sh ∈ Shape.all, ∃ c : Call, c.shape = sh ∧ c.ignoresArgs = false := by
+  intro sh hsh
+  cases sh
+  · exact ⟨.read false false, rfl, rfl⟩
+  · exact ⟨.read true false, rfl, rfl⟩
+  · exact ⟨.read false true, rfl, rfl⟩
+  · exact ⟨.reply false, rfl, rfl⟩
+  · exact ⟨.now false false false false, rfl, rfl⟩
+  · exact ⟨.now false false true false, rfl, rfl⟩
+  · exact ⟨.now false true false false, rfl, rfl⟩
+  · exact ⟨.now true false false false, rfl, rfl⟩
+  · exact ⟨.now false false false true, rfl, rfl⟩
+  · exact ⟨.read true true, rfl, rfl⟩
+  · exact ⟨.reply true, rfl, rfl⟩
+  · exact ⟨.now true true false false, rfl, rfl⟩
+  · exact ⟨.now false true false true, rfl, rfl⟩
+  · exact ⟨.now true false false true, rfl, rfl⟩
+  · exact ⟨.now true true false true, rfl, rfl⟩
+
+/-- call, encode, decode, recognise -/
+def roundtripCall (cfg : Cfg) (fn : FnRow) (c : Call) (a : Args α) : Except Panic (Option (Recognised α)) :=
+  match buildCall cfg fn c a with
+  | .error e => .error e
+  | .ok cmd =>
+    match decodeCmd (encodeCmd cmd) with
+    | none => .ok none
+    | some c' => recognise c'
+
+theorem roundtripCall_eq_shape (cfg : Cfg) (fn : FnRow) (c : Call) (a : Args α) :
+    roundtripCall cfg fn c a = roundtrip cfg fn c.shape a := by
+  unfold roundtripCall roundtrip
+  rw [buildCall_eq_shape]
+  cases build cfg fn c.shape a with
+  | error e => rfl
+  | ok cmd =>
+    dsimp only
+    cases decodeCmd (encodeCmd cmd) <;> rfl
+
+end Spine.Cmd
